@@ -210,9 +210,16 @@ def run(chk: lib.Check):
                     parts = [x for x in zrec[0].split("/") if x not in ("", ".")]
                     tcases.append(((KINDS["zipopen"], sub, f), parts))
                     counts["zipopen"] += 1
-                    if not posix_norm_oracle(sub_parts, zrec[0]) or ".." in parts:
-                        chk.violation(f"zipopen:{sub}:{f!r}", f"ZipFileHandler(subdir={sub!r}).open({f!r}) reads member {zrec[0]!r}",
-                                      {"handler": "zip", "subdir": sub, "file": f, "member": zrec[0]})
+                    # EVERY member the handler asks the archive for — also second attempts after a miss — lies below the subdir
+                    for zname in zrec:
+                        if isinstance(zname, Err):
+                            continue
+                        zparts = [x for x in zname.split("/") if x not in ("", ".")]
+                        if not posix_norm_oracle(sub_parts, zname) or ".." in zparts:
+                            chk.violation(f"zipopen:{sub}:{f!r}", f"ZipFileHandler(subdir={sub!r}).open({f!r}) asks the archive for member {zname!r}"
+                                          + (" (after the first lookup missed)" if zname is not zrec[0] else ""),
+                                          {"handler": "zip", "subdir": sub, "file": f, "member": zname, "all_lookups": [str(z) for z in zrec]})
+                            break
                 # zip listing entry points
                 try:
                     _, zp = fhzip._normalize_path(f, zh.subdir)
@@ -271,6 +278,49 @@ def run(chk: lib.Check):
                     except Exception as e:  # noqa: BLE001
                         tcases.append(((KINDS["git"], sub, f), err_of(e)))
                 chk.note_case(("h", sub, f), nontrivial=(".." in f or f.startswith("/")))
+            # writes through the git handler, all names in one dry-run transaction: whatever appears in the file system (files AND
+            # directories, also ones left behind after the rollback) lies below the work tree's subdir
+            if gh is not None:
+                def fs_snapshot():
+                    out = set()
+                    # the scratch directory and the place where the handler keeps its work trees (two levels up: siblings of the tree)
+                    for top in (str(tmp), str(pathlib.Path(str(gh.cache_dir)).parent)):
+                        for dp, dns, fns in os.walk(top):
+                            if os.sep + ".git" in dp or dp.endswith(".git"):
+                                continue
+                            for n_ in dns + fns:
+                                if n_ != ".git":
+                                    out.add(os.path.join(dp, n_))
+                    return out
+                base_real = os.path.realpath(os.path.join(str(gh.cache_dir), *sub_parts))
+                before_fs = fs_snapshot()
+                during: set = set()
+                try:
+                    with gh.write_transaction(dry_run=True, push=False):
+                        for f in hpaths:
+                            try:
+                                fh = gh.open(f, "wb")
+                                fh.write(b"x")
+                                fh.close()
+                                counts["git"] += 1
+                            except Exception:  # noqa: BLE001  refusing a name is fine
+                                pass
+                        during = fs_snapshot()
+                except Exception as e:  # noqa: BLE001
+                    counts["git-write-transaction-raises"] = counts.get("git-write-transaction-raises", 0) + 1
+                after_fs = fs_snapshot()
+                import re as _re
+                wt_area = str(pathlib.Path(str(gh.cache_dir)).parent)
+                for pth in sorted((during | after_fs) - before_fs):
+                    real = os.path.realpath(pth)
+                    # work trees of OTHER handler instances / processes come and go in the same area: not ours to judge
+                    rel_ = os.path.relpath(real, wt_area)
+                    if not rel_.startswith("..") and _re.match(r"capellambse-\d+-", rel_.split(os.sep)[0]) and not real.startswith(str(gh.cache_dir)):
+                        continue
+                    if not (real == base_real or real.startswith(base_real + os.sep) or base_real.startswith(real + os.sep)):
+                        chk.violation(f"git-write-outside:{sub}", f"writing through GitFileHandler(subdir={sub!r}) created {real}, outside {base_real}",
+                                      {"handler": "git", "subdir": sub, "created": real, "left_after_rollback": pth in after_fs})
+                        break
             # every URL placeholder: the inserted text must not add path, query or fragment structure
             templates = ["http://host.invalid/base/%d/%n.%e?rev=1", "http://host.invalid/get?file=%q&rev=1", "http://host.invalid/%s/raw"]
             specials = ["a/model.x&admin=1", "a/m.y#frag", "a/m.z?q=1", "d e/n m.a%41b", "a/../b/c.d=e", "m.aird", "x/y.z w", "a/b.c;d", "n.é", "a/q.%2e%2e"]
